@@ -28,12 +28,20 @@ type Req struct {
 	BadCT     bool `json:"bad_ct,omitempty"`     // Content-Type not admitted by the operation
 	BadAccept bool `json:"bad_accept,omitempty"` // Accept the operation cannot satisfy
 	BadBody   bool `json:"bad_body,omitempty"`   // body the consumer cannot parse
+	// Extra: request headers that have nothing to do with the security schemes of the API (a CORS preflight marker,
+	// proxy and upgrade headers ...): "whatever else is right or wrong with the request", they decide nothing.
+	Extra []string `json:"extra,omitempty"`
 }
+
+// extraHeaders are the "name: value" pairs Req.Extra draws from.
+var extraHeaders = []string{"Access-Control-Request-Method: GET", "Access-Control-Request-Headers: authorization", "Origin: https://elsewhere.example",
+	"X-Forwarded-For: 10.0.0.1", "Upgrade: websocket", "Connection: Upgrade", "X-Http-Method-Override: GET", "Expect: 100-continue", "X-Requested-With: XMLHttpRequest"}
 
 func (r Req) damaged() bool { return r.MissingQ || r.BadCT || r.BadAccept || r.BadBody }
 
 // StackCase is one API description with several requests.
 type StackCase struct {
+	OptOut     bool     `json:"opt_out_sibling,omitempty"` // Decl "global": the API also has operations that opt out with "security": []
 	Alts       []Alt    `json:"alts"`
 	Unreg      []string `json:"unreg,omitempty"` // defined schemes without a registered authenticator
 	Undef      []string `json:"undef,omitempty"` // schemes named by requirements but absent from securityDefinitions
@@ -92,8 +100,17 @@ func buildSpec(c StackCase) json.RawMessage {
 		},
 		"responses": M{"200": M{"description": "ok"}},
 	}
+	paths := M{"/p": M{c.Method: op}}
+	if c.OptOut && c.Decl == "global" {
+		// a sibling operation that opts out of the API-level requirements with an explicit empty list: it must not
+		// change what the other operations of the API demand (in whichever order the operations are installed)
+		for _, p := range []string{"/open", "/a-open", "/z-open"} {
+			paths[p] = M{"get": M{"operationId": "open" + strings.ReplaceAll(p, "/", "_"), "security": []M{}, "produces": []string{"application/json"},
+				"responses": M{"200": M{"description": "ok"}}}}
+		}
+	}
 	doc := M{"swagger": "2.0", "info": M{"title": "t", "version": "1"}, "basePath": "/", "securityDefinitions": defs,
-		"paths": M{"/p": M{c.Method: op}}}
+		"paths": paths}
 	switch c.Decl {
 	case "global":
 		doc["security"] = sec
@@ -163,6 +180,11 @@ func newUntypedRig(c StackCase) (*stackRig, error) {
 	r := &stackRig{c: c, obs: &observation{}}
 	api := untyped.NewAPI(doc)
 	r.registerCommon(api)
+	if c.OptOut && c.Decl == "global" {
+		for _, p := range []string{"/open", "/a-open", "/z-open"} {
+			api.RegisterOperation("get", p, runtime.OperationHandlerFunc(func(interface{}) (interface{}, error) { return M{"open": true}, nil }))
+		}
+	}
 	api.RegisterOperation(c.Method, "/p", runtime.OperationHandlerFunc(func(interface{}) (interface{}, error) {
 		r.obs.ran++
 		if c.HandlerErr {
@@ -278,6 +300,11 @@ func (r *stackRig) request(q Req) *http.Request {
 	}
 	for _, s := range SchemeNames {
 		req.Header.Set("X-Out-"+s, q.Vec[s])
+	}
+	for _, h := range q.Extra {
+		if i := strings.Index(h, ": "); i > 0 {
+			req.Header.Set(h[:i], h[i+2:])
+		}
 	}
 	return req
 }
